@@ -1,7 +1,7 @@
 """Sidecar contracts for sigpyproc (keyed by file::qualname; loops by source-order ordinal + variable)."""
 from pvc.contract import Registry
 
-MODULES = ["kernels_bits", "bits", "kernels_stream", "kernels_moments", "race", "fileio", "readers"]
+MODULES = ["lemmas", "kernels_bits", "bits", "kernels_stream", "kernels_moments", "race", "fileio", "readers", "base"]
 
 
 def load_all():
@@ -14,6 +14,8 @@ def load_all():
 
 
 def configure(v):
+    v.inline_classes |= {"sigpyproc/timeseries.py::TimeSeries"}
     """Functions that are executed symbolically at the call site (tiny, pure, real bodies)."""
     v.inline_ok |= {"sigpyproc/core/kernels.py::update_moments", "sigpyproc/core/kernels.py::update_moments_basic",
-                    "sigpyproc/io/fileio.py::FileBase._close_current"}
+                    "sigpyproc/io/fileio.py::FileBase._close_current",
+                    "sigpyproc/timeseries.py::TimeSeries._check_input"}
